@@ -8,7 +8,7 @@ import (
 // which rules serve which property (DESIGN.md section I.4)
 func init() {
 	serve("C01", "T1", "T2", "T3", "T6", "T8", "T9", "T10", "T11", "T13", "B1", "B2", "B3", "B3b", "G6", "U1", "V9", "B8", "F1", "F2", "F3", "T14", "F4", "U4", "V10", "F5", "F6", "T17", "T18", "F7", "U5", "U6", "T19")
-	serve("C02", "B1", "B1n", "B2", "B3", "B3b", "B4", "B6", "B7", "G6", "T8", "U2", "B8", "T1", "T2", "U3", "W15", "T18", "U6")
+	serve("C02", "B1", "B1n", "B2", "B3", "B3b", "B4", "B6", "B7", "G6", "T8", "U2", "B8", "T1", "T2", "U3", "W15", "T18", "U6", "G48")
 	serve("C03", "F1", "F2", "F3", "T6", "T9", "B4", "B3b", "G6r", "L1@io", "G6", "F4", "F5", "F6", "T1", "T2", "T18", "U6", "T19")
 	serve("C04", "W1", "W2", "W2b", "W3", "W5", "W6", "W7", "W8", "W9", "W10", "V6", "T5", "T11", "U1", "U2", "W12", "W13", "U3", "U4", "W14", "W15", "W16", "W17", "T17", "L14", "L4", "U5")
 	serve("C05", "V2", "V1", "V4", "V5", "V7", "V9", "V10", "V6", "V11", "G45")
@@ -17,10 +17,10 @@ func init() {
 	serve("C08", "G4", "G8", "G12", "G18", "G19", "G6", "R4", "B6", "B6m", "G27", "G16", "G33", "G34", "S2", "S3", "S4", "S9", "S10", "T1", "T2", "T3", "S12", "P16", "G39", "B1", "B2", "B3", "B3b", "G44", "G46", "S14", "G47")
 	serve("C09", "L1", "L2", "L8", "P3", "P3c", "P8", "L6", "S4", "G7", "G7r", "G16", "P12", "L11", "G12", "P16", "P17", "P19", "G42", "G46", "S6", "S2")
 	serve("C10", "P3", "P3w", "P4", "P5", "P7", "L1", "L8", "G15", "G16", "G21", "P12", "G9", "P1", "P2", "P17", "P18", "P19", "L13", "G2", "S15")
-	serve("C11", "R1", "R2", "R3", "R4", "P1", "P2", "G17", "P11", "W5", "P8", "R5", "P7", "W13", "W14", "P16", "W15", "W16", "S6", "S15", "W1")
+	serve("C11", "R1", "R2", "R3", "R4", "P1", "P2", "G17", "P11", "W5", "P8", "R5", "P7", "W13", "W14", "P16", "W15", "W16", "S6", "S15", "W1", "R6")
 	serve("C12", "S2", "S3", "S4", "S6", "S7", "S8", "V3", "G16", "S9", "S10", "S12", "S13", "S14", "P3", "P3c")
 	serve("C13", "S1", "S5", "S7", "S4", "S11", "P16", "S13", "S15")
-	serve("C14", "L4", "L1", "L5", "L8", "G6", "G6r", "V1", "V7", "V8", "L10", "L11", "L12", "U2", "B6", "B3", "P20", "L14")
+	serve("C14", "L4", "L1", "L5", "L8", "G6", "G6r", "V1", "V7", "V8", "L10", "L11", "L12", "U2", "B6", "B3", "P20", "L14", "G48")
 	serve("C15", "L1", "L8", "L9", "G3", "G13", "L7", "G22", "G23", "R4", "G31", "G38", "G41", "G42", "G40")
 	serve("C16", "G1", "G1b", "G9", "G10", "G10b", "R4", "G25", "G26", "G3", "G13", "G22", "G23", "G35", "P18", "G40", "G38", "G41", "G44")
 	serve("C17", "P1", "L2", "L3", "G11", "G20", "G24", "L12", "G3", "G13", "G22", "G23", "G38", "G40", "G41")
